@@ -34,23 +34,35 @@ ProdTol  == 1     \* max |USV(flipped) - USV(unflipped)| <= 1e-8
 
 \* ------------------------------------------------------------------ options
 Methods   == {"truncated_svd", "symeig_svd", "randomized_svd", "callable"}
-Overs     == {0, 5}                        \* n_oversamples handed to randomized_svd (5 = the default)
+Overs     == {0, 1, 5, 10}                 \* n_oversamples handed to randomized_svd (5 = the default)
+NIters    == {0, 1, 2}                     \* n_iter (power iterations) handed to randomized_svd (2 = the default)
+Masks     == {"off", "ones"}               \* mask=None | an all-ones mask ("nothing is missing": same contract)
 Flips     == {"off", "U", "V"}             \* flip_sign=False | u_based_flip_sign=True | False
 NonNegs   == {"off", "nndsvda", "nndsvd"}  \* non_negative = False | True (documented default type) | "nndsvd"
 Vias      == {"interface", "direct"}       \* svd_interface(...) | the method function called directly
 Ks(m, n)  == 0..(MaxOf(m, n) + 1)          \* 0 = None; up to one past max(shape)
 
+\* The sketch parameters of randomized_svd (n_oversamples, n_iter) only influence HOW the range is found;
+\* whenever the sketch covers the rank the contract is the same for every value, n_iter = 0 included.
+\* The grid: every (flip, non_negative) combination for the default n_iter with oversampling 0 / default;
+\* the other sketch parameters and the all-ones mask with the plain call (flip off, non_negative off).
 ValidOpt(m, n, r) ==
     /\ r.method \in Methods /\ r.flip \in Flips /\ r.nonneg \in NonNegs /\ r.via \in Vias
     /\ r.k \in Ks(m, n)
-    /\ r.over \in Overs /\ (r.method # "randomized_svd" => r.over = 5)
-    /\ (r.via = "direct" => r.flip = "off" /\ r.nonneg = "off" /\ r.method # "callable")
+    /\ r.over \in Overs /\ r.niter \in NIters /\ r.mask \in Masks
+    /\ (r.method # "randomized_svd" => r.over = 5 /\ r.niter = 2)
+    /\ (r.via = "direct" => r.flip = "off" /\ r.nonneg = "off" /\ r.method # "callable" /\ r.mask = "off")
+    /\ (r.niter # 2 \/ r.over \notin {0, 5} => r.flip = "off" /\ r.nonneg = "off")
+    /\ (r.niter # 2 => r.over \in {0, 5})
+    \* the mask is only read when n_eigenvecs is given (docstring); then it triggers the imputation loop
+    /\ (r.mask = "ones" => r.k # 0 /\ r.flip = "off" /\ r.nonneg = "off" /\ r.over = 5 /\ r.niter = 2)
 
 AllOpts(m, n) ==
-    {r \in [method : Methods, over : Overs, k : Ks(m, n), flip : Flips, nonneg : NonNegs, via : Vias] :
+    {r \in [method : Methods, over : Overs, niter : NIters, mask : Masks, k : Ks(m, n), flip : Flips, nonneg : NonNegs, via : Vias] :
         ValidOpt(m, n, r)}
 
-OptKey(r) == [method |-> r.method, over |-> r.over, k |-> r.k, flip |-> r.flip, nonneg |-> r.nonneg, via |-> r.via]
+OptKey(r) == [method |-> r.method, over |-> r.over, niter |-> r.niter, mask |-> r.mask, k |-> r.k, flip |-> r.flip,
+              nonneg |-> r.nonneg, via |-> r.via]
 
 \* ------------------------------------------------------------------ clamp and documented shapes
 \* svd_checks: "n_eigenvecs=None -> max_dim;  n_eigenvecs > max_dim -> max_dim (warning)".
@@ -236,7 +248,8 @@ MatricesAt(m, n, rows, cols) ==
 VARIABLE cfg
 NoCfg == [op |-> "none"]
 Init == \/ cfg \in {[op |-> "shape", m |-> m, n |-> n] : m \in 1..MaxDim, n \in 1..MaxDim}
-        \/ cfg = [op |-> "options", methods |-> Methods, overs |-> Overs, flips |-> Flips, nonnegs |-> NonNegs]
+        \/ cfg = [op |-> "options", methods |-> Methods, overs |-> Overs, flips |-> Flips, nonnegs |-> NonNegs,
+                 niters |-> NIters, masks |-> Masks]
 \* three levels (shape -> placement -> matrix) so that TLC's workers share the enumeration
 Next == \/ /\ cfg.op = "shape"
            /\ cfg' \in {[op |-> "place", m |-> cfg.m, n |-> cfg.n, rows |-> p.rows, cols |-> p.cols] :
